@@ -135,7 +135,7 @@ def inv_reset(R, H, nkeys=256):
         def pred(s_np, ts_np):
             vals = dict(("Inv(reset): " + n, v) for n, v in H.inv(S.conc_tree(s_np), None))
             return bool(vals[name]), {"config": H.cfg, "obligation": name, "state": _brief(s_np)}
-        return C.reset_key_search(H.env, pred, nkeys)
+        return C.reset_replayer(H.env.reset, ctx, key, lambda out: pred(out[0], out[1]), nkeys)
     R.reach("reset", A)
     for n, v in obs:
         R.prove(n, A, v.term() if not v.conc else bool(v), replay=mk(n))
